@@ -346,10 +346,10 @@ func cmdCheck(args []string) int {
 	wg.Wait()
 	// An obligation that no solver decided because of a time-out (no `sat` answer) is tried once more,
 	// alone and with three times the limit: the first pass runs many solvers at once, and a loaded
-	// machine must not turn a slow proof into an alarm. At most 6 obligations are retried.
-	retried := 0
+	// machine must not turn a slow proof into an alarm. At most 40 obligations are retried, three at a time.
+	var again []*Result
 	for _, r := range results {
-		if r.File == "" || r.Status != "failed" || retried >= 6 {
+		if r.File == "" || r.Status != "failed" || len(again) >= 40 {
 			continue
 		}
 		timedOut, sat := false, false
@@ -364,11 +364,22 @@ func cmdCheck(args []string) int {
 		if !timedOut || sat || r.TimeS < float64(timeoutS)-1 {
 			continue
 		}
-		retried++
-		ans, win, el := race(r.File, 3*timeoutS, false)
-		decide(r, ans, win, r.TimeS+el, *tier)
-		r.Retried = true
+		again = append(again, r)
 	}
+	rsem := make(chan struct{}, 3)
+	var rwg sync.WaitGroup
+	for _, r := range again {
+		rwg.Add(1)
+		go func(r *Result) {
+			defer rwg.Done()
+			rsem <- struct{}{}
+			defer func() { <-rsem }()
+			ans, win, el := race(r.File, 3*timeoutS, false)
+			decide(r, ans, win, r.TimeS+el, *tier)
+			r.Retried = true
+		}(r)
+	}
+	rwg.Wait()
 	if ld != nil {
 		for _, sc := range ps.Structural {
 			if sc == "routes" {
